@@ -120,7 +120,7 @@ fn gen_run(rng: &mut Rng) -> Value {
            "qs": [[3, 7], [3, 6], [3, 8], [3, 100], [4, 0], [1, 0], [0, 0], [2, 5]]})
 }
 fn gen_with(rng: &mut Rng, size: usize, with_range: bool) -> Value {
-    if !with_range && rng.chance(1, 6) { return gen_run(rng); }
+    if !with_range && rng.chance(1, 10) { return gen_run(rng); }
     let mut m = if rng.chance(1, 8) && !with_range {
         json!({"op": "lookup", "doc": crate::c02::gen_index_doc(rng, size, 1)})
     } else {
@@ -149,7 +149,7 @@ pub fn gen_c07(rng: &mut Rng, size: usize) -> Value {
     match rng.below(4) {
         0 => {
             // a long line: up to 70 tokens (sometimes up to 330) on one line, random flag density incl. a lone flag
-            let n = if rng.chance(1, 3) { 100 + rng.below(230) } else { 1 + rng.below(70) };
+            let n = if rng.chance(1, 6) { 100 + rng.below(230) } else { 1 + rng.below(70) };
             let lead = rng.below(3) as i64;
             let dens = if rng.chance(1, 3) { n + 1 } else { 1 + rng.below(6) };   // n+1: (almost) no flag except the forced ones below
             let mut toks = vec![];
